@@ -122,3 +122,39 @@ package l1
 //@   assigns calls_Decode, arg_Decode_ev
 //@   loop 1: invariant every_event_decoded: received(*gethEventsCh) - old(received(*gethEventsCh)) == calls_Decode - old(calls_Decode)
 //@   ensures every_event_decoded: received(*gethEventsCh) - old(received(*gethEventsCh)) == calls_Decode - old(calls_Decode)
+
+// ---- the start-up catch-up scan ---------------------------------------------------------------
+// The scan asks the L1 node for windows [from, to] that walk backwards from the latest height
+// without gap or overlap (each at most catchUpChunkSize blocks, none wrapping below zero), hands
+// EVERY event of a window to applyStateUpdate in the order the L1 node delivered it (two commits
+// in one Ethereum block: the later one must win), and then records the head through setL1Head.
+//@ extern func github.com/NethermindEth/juno/l1.L1StateProvider.LatestHeight
+//@   ensures an_ethereum_height: result0 < 1<<63
+//@ extern func github.com/NethermindEth/juno/l1.L1StateProvider.FinalisedHeight
+//@ extern func github.com/NethermindEth/juno/l1.L1StateProvider.FilterStateUpdate
+//@   logged as Filter
+//@   ensures forall i int :: 0 <= i && i < len(result0) ==> result0[i] != nil
+//@ extern func context.WithTimeout
+//@   ensures effectfree(result1)
+//@ extern func context.Context.Err
+//@ extern func errors.Is
+//@ func (*Client).catchUpL1HeadUpdates
+//@   props C17
+//@   arith int
+//@   requires c != nil && c.nonFinalisedLogs != nil && c.l2Chain != nil && c.provider != nil
+//@   requires nonnil: forall k uint64 :: in(c.nonFinalisedLogs, k) ==> c.nonFinalisedLogs[k] != nil
+//@   requires chunk_positive: c.catchUpChunkSize >= 1
+//@   modifies maps
+//@   assigns l1HeadCalls, l1HeadBlock, calls_applyStateUpdate, arg_applyStateUpdate_stateUpdate, calls_Filter, arg_Filter_ctx, arg_Filter_from, arg_Filter_to
+//@   loop 1: invariant nonnil: forall k uint64 :: in(c.nonFinalisedLogs, k) ==> c.nonFinalisedLogs[k] != nil
+//@   loop 1: invariant contiguous: calls_Filter == old(calls_Filter) || (arg_Filter_from >= 1 && to == arg_Filter_from - 1)
+//@   loop 1: invariant first_window_at_latest: calls_Filter >= old(calls_Filter) && (calls_Filter == old(calls_Filter) ==> to == latest)
+//@   loop 1: invariant below_latest: to <= latest && latest < 1<<63
+//@   loop 1: invariant head_not_yet: l1HeadCalls == old(l1HeadCalls)
+//@   loop 2: invariant nonnil: forall k uint64 :: in(c.nonFinalisedLogs, k) ==> c.nonFinalisedLogs[k] != nil
+//@   loop 2: invariant idx: -1 <= rangeindex && rangeindex < len(events)
+//@   loop 2: invariant all_applied_so_far: calls_applyStateUpdate == atentry(calls_applyStateUpdate) + rangeindex + 1
+//@   loop 2: invariant head_not_yet: l1HeadCalls == old(l1HeadCalls)
+//@   callsite FilterStateUpdate@*: window_inside: from <= to && to - from < c.catchUpChunkSize
+//@   callsite FilterStateUpdate@*: full_or_down_to_genesis: from == 0 || to - from + 1 == c.catchUpChunkSize
+//@   callsite applyStateUpdate@*: in_delivery_order: stateUpdate == events[rangeindex+1]
